@@ -8,7 +8,7 @@
     expansion of every corpus declaration on every run; the theorems say what a successful check
     means for all raw values, all arguments, all in-range indices and both build profiles
     ([c] ranges over overflow-checks on/off). *)
-From BB Require Import Bits Expr Sym Spec Validate Parse ParseCorrect Enum.
+From BB Require Import Bits Expr Sym Spec Validate Parse ParseCorrect Enum Prog History.
 Open Scope N_scope.
 
 (** ** C01 — getter returns exactly the declared bits *)
@@ -132,3 +132,73 @@ Proof. exact C10_exhaustive_sound. Qed.
 Theorem C10_no_variant_is_unrepresentable : forall e v x,
   enum_accept e = true -> In v (en_variants e) -> enum_raw v = Some x -> x < 2 ^ en_bits e.
 Proof. exact C10_no_unrepresentable. Qed.
+
+(** ** C12 — any history of writes ends in last-write-wins state, bit by bit *)
+
+Theorem C12_last_write_wins : forall ops x0 k,
+  N.testbit (run ops x0) k =
+  match last_write ops k with
+  | Some (v, j) => N.testbit v j
+  | None => N.testbit x0 k
+  end.
+Proof. exact last_write_wins. Qed.
+
+Theorem C12_last_write_is_the_last_covering_one : forall ops k v j,
+  last_write ops k = Some (v, j) ->
+  exists before o after,
+    ops = (before ++ o :: after)%list /\ w_v o = v /\
+    find_pos (elem_ranges (w_f o) (w_i o)) 0 k = Some j /\
+    forall o', In o' after -> op_covers o' k = false.
+Proof. exact last_write_Some. Qed.
+
+Theorem C12_untouched_bits_keep_initial_value : forall ops k,
+  last_write ops k = None <-> forall o, In o ops -> op_covers o k = false.
+Proof. exact last_write_None. Qed.
+
+Theorem C12_disjoint_writes_commute : forall o1 o2 x,
+  (forall k, op_covers o1 k = true -> op_covers o2 k = false) ->
+  apply (apply x o1) o2 = apply (apply x o2) o1.
+Proof. exact disjoint_commute. Qed.
+
+Theorem C12_getters_observe_the_state : forall ops x0 f i j,
+  j < total (elem_ranges f i) ->
+  N.testbit (spec_get f i (run ops x0)) j =
+  match last_write ops (nth_pos (elem_ranges f i) j) with
+  | Some (v, j') => N.testbit v j'
+  | None => N.testbit x0 (nth_pos (elem_ranges f i) j)
+  end.
+Proof. exact getters_observe. Qed.
+
+Theorem C12_overlapping_fields_alias_coherently : forall f i g i' v x j,
+  j < total (elem_ranges g i') ->
+  N.testbit (spec_get g i' (spec_set f i v x)) j =
+  match find_pos (elem_ranges f i) 0 (nth_pos (elem_ranges g i') j) with
+  | Some jf => N.testbit v jf
+  | None => N.testbit x (nth_pos (elem_ranges g i') j)
+  end.
+Proof. exact overlap_coherent. Qed.
+
+(** the real bodies (both profiles), any finite history: no panic, the abstract state, N bits *)
+Theorem C12_real_code_any_history : forall c d p ops raw,
+  setters_ok d p -> Forall (hop_ok d) ops -> raw < 2 ^ d_W d ->
+  real_run c d p raw ops = Ok (run (map hop_wop ops) raw) /\ run (map hop_wop ops) raw < 2 ^ d_W d.
+Proof. exact real_history. Qed.
+
+(** ** C11 — arbitrary-int bases are N-bit registers *)
+
+Theorem C11_no_state_above_bit_N : forall W ops x0,
+  x0 < 2 ^ W -> Forall (in_base W) ops -> run ops x0 < 2 ^ W.
+Proof. exact run_lt. Qed.
+
+Theorem C11_rewrap_is_identity_on_reachable_states : forall c d p raw_body new_body,
+  check_raw_value (d_W d) raw_body = true -> check_new_raw (d_W d) new_body = true ->
+  forall ops raw0, setters_ok d p -> Forall (hop_ok d) ops -> raw0 < 2 ^ d_W d ->
+  exists x, real_run c d p raw0 ops = Ok x /\
+    eval c (mk_env (d_W d) x 0 (VBool false)) raw_body = Ok (VInt (base_ty (d_W d)) x) /\
+    eval c (mk_env (d_W d) 0 0 (VInt (base_ty (d_W d)) x)) new_body = Ok (VInt (TU (storage (d_W d))) x).
+Proof. exact rewrap_identity. Qed.
+
+(** what each run's kernel-checked [run_ok] theorem establishes is the hypothesis above *)
+Theorem C12_run_obligations_give_setters_ok : forall d p,
+  forallb snd (obligations d p) = true -> setters_ok d p.
+Proof. exact obligations_setters_ok. Qed.
